@@ -10,6 +10,7 @@ pub mod c11;
 pub mod c12;
 pub mod c13;
 pub mod c14;
+pub mod c15;
 pub mod c16;
 pub mod c18;
 pub mod c19;
@@ -41,5 +42,6 @@ pub const REGISTRY: &[Entry] = &[
     Entry { id: "C20", level: "exploration", main: c20::main, replay: c20::replay },
     Entry { id: "C10", level: "exploration", main: c10::main, replay: c10::replay },
     Entry { id: "C14", level: "exploration", main: c14::main, replay: c14::replay },
+    Entry { id: "C15", level: "exploration", main: c15::main, replay: c15::replay },
     Entry { id: "C11", level: "exploration", main: c11::main, replay: c11::replay },
 ];
